@@ -432,3 +432,29 @@ def chain_programs(rng, n):
         out.append(Block([Asg("lim", Int(r.choice([1, 3]))), Asg("one", Fn([Param("a")], Block([Id("a")]))), Asg("res", e),
                           Core("print", [Id("res")]), Id("res")]))
     return out
+
+
+def bracket_programs(rng, n):
+    """Lists, tuples and call arguments whose elements are calls of named one-argument functions, some of them negated with
+    `not`: inside brackets such calls may be written without parentheses (the layout check's subject)."""
+    out = []
+    for _ in range(n):
+        reset_ids()
+        r = rng
+        def call():
+            f = r.choice(["ev", "neg1", "idf"])
+            a = r.choice([lambda: Int(r.choice([0, 3, 4, 7])), lambda: Id("k"), lambda: Str("s"), lambda: Bool(True)])()
+            c = App(Id(f), [a])
+            return Not(c) if r.random() < 0.4 else c
+        def elems():
+            return [call() if r.random() < 0.75 else Int(r.choice([9, 99])) for _ in range(r.randrange(2, 5))]
+        xs = [Asg("ev", Fn([Param("n")], Block([Cmp(["=="], [Bin("%", Core("size", [Tuple([Id("n"), Id("n")])]), Int(2)), Int(0)])]))),
+              Asg("neg1", Fn([Param("n")], Block([Tuple([Str("neg"), Id("n")])]))), Asg("idf", Fn([Param("n")], Block([Id("n")]))),
+              Asg("pair", Fn([Param("x"), Param("y", "def")], Block([Tuple([Id("x"), Id("y")])]), defaults=[Str("missing")])),
+              Asg("k", Int(r.choice([1, 2])))]
+        xs.append(Asg("a", List(elems())))
+        xs.append(Asg("b", Tuple(elems())))
+        xs.append(Asg("c", App(Id("pair"), [call(), call()])))
+        xs += [Core("print", [Id("a")]), Core("print", [Id("b")]), Core("print", [Id("c")]), Id("a")]
+        out.append(Block(xs))
+    return out
